@@ -17,6 +17,7 @@ CHECKS = {
  "C07": (True, "Bounded model checking of error location: tokens carry arbitrary (monotone) 64-bit line numbers as solver variables, path present/absent and nesting shapes are forked, and for each kind of render-time and parse-time failure the reported LineNumber, Path, message and Cause are asserted against the innermost failing token.", "DESIGN.md §4 C07"),
  "C08": (True, "Bounded model checking of expression evaluation: array index over all 64-bit integers against a reference (negative from the end, out of range nil), map/property/size lookup with solver-chosen keys and payloads, strict mode, integer and string literals with symbolic bytes through the real ragel lexer and goyacc parser, pipelines against their assign-decomposed form, and whitespace (incl. newlines) inserted at every part boundary of corpus tags/objects.", "DESIGN.md §4 C08"),
  "C15": (True, "Bounded model checking of the array filters through the real lexer, parser, ApplyFilter and values.Call: element payloads (all int values, short strings, nil, maps with present/absent keys) are solver variables, length and Go representation are forked, and sort (permutation + ascending), keyed sort, reverse, uniq, compact, concat, first/last/size, join and map are compared with references; the input (including spare capacity) is checked unchanged and every store into it is trapped by the engine's frame check.", "DESIGN.md §4 C15"),
+ "C16": (True, "Bounded model checking of the string filters through the real call layer with strings of symbolic bytes (any byte values; valid UTF-8 assumed where the statement requires it) and integer arguments over all 64-bit values: append/prepend, upcase/downcase/capitalize, strip family, size, slice, replace/remove family, split/join round trip, newline filters, url_encode/url_decode round trip, non-string receivers; truncate/truncatewords/escape on a forked text and length set (regexp/html are native, concrete only).", "DESIGN.md §4 C16"),
  "C17": (True, "Bounded model checking of the numeric filters with operands as SMT floating-point variables (all finite float64) and integers of every width: plus/minus/times against the IEEE operation, divided_by dispatch over every divisor kind incl. zero, ceil/floor bracketing and integrality, round half up, abs; modulo and string operands on a forked operand set.", "DESIGN.md §4 C17"),
  "C09": (True, "Bounded model checking of values.Equal/Less/Contains and the grammar's operator actions: every ordered pair of scalar kinds is forked, payloads (all integers of each width, finite floats, short strings, small arrays) are solver variables, and the documented comparison rules are asserted as a reference written from the statement.", "DESIGN.md §4 C09"),
 }
